@@ -106,8 +106,22 @@ hx_refsum(json_t *j)
     return n;
 }
 
+/* template argument of a producing call: when several keys share one object template the library
+ * must only read it (C17), so the caller's own object is handed over and the main loop's argument
+ * check sees any modification; in every other case the call may complete the template, so it gets
+ * a copy */
+json_t *
+hx_tmpl(json_t *args, const char *key)
+{
+    json_t *t = hx_arg(args, key), *jwk = hx_arg(args, "jwk");
+    bool multi = json_is_array(jwk) || json_is_array(json_object_get(jwk, "keys"));
+    if (multi && json_is_object(t))
+        return json_incref(t);
+    return json_deep_copy(t);
+}
+
 static const op_t *const tables[] = {
-    ops_tables, ops_b64, ops_io, ops_jwk, ops_misc, ops_jws, ops_jwe, ops_api, NULL
+    ops_tables, ops_b64, ops_io, ops_jwk, ops_misc, ops_jws, ops_jwe, ops_api, ops_cfg, ops_glob, NULL
 };
 
 static op_fn
@@ -120,6 +134,108 @@ find_op(const char *name)
     return NULL;
 }
 
+/* one line of the protocol -> its result line (malloc'd) */
+static char *
+hx_process(char *line)
+{
+    char *sp;
+    json_t *args, *res;
+    json_error_t err;
+    op_fn fn;
+    char *txt;
+    json_t *before;
+    size_t rc_before;
+    bool mutated, refs;
+
+    sp = strchr(line, ' ');
+    if (sp)
+        *sp++ = 0;
+    fn = find_op(line);
+    if (!fn)
+        return strdup("{\"error\":\"unknown-op\"}");
+    args = json_loads(sp ? sp : "{}", JSON_ALLOW_NUL | JSON_DECODE_ANY, &err);
+    if (!args)
+        return strdup("{\"error\":\"bad-args\"}");
+    /* C17 / C09: no operation may change the JSON values it is handed (mutating operations
+     * work on copies made by the op itself), and once the result has been released the
+     * reference counts of all argument nodes must be what they were */
+    before = json_deep_copy(args);
+    rc_before = hx_refsum(args);
+    res = fn(args);
+    if (!res)
+        res = json_pack("{s:s}", "error", "op-returned-null");
+    txt = json_dumps(res, JSON_COMPACT | JSON_SORT_KEYS | JSON_ENCODE_ANY);
+    json_decref(res);
+    mutated = !json_equal(before, args);
+    refs = hx_refsum(args) != rc_before;
+    json_decref(before);
+    if ((mutated || refs) && txt) {
+        json_t *again = json_loads(txt, JSON_ALLOW_NUL | JSON_DECODE_ANY, NULL);
+        if (json_is_object(again)) {
+            if (mutated)
+                json_object_set_new(again, "args_mutated", json_true());
+            if (refs)
+                json_object_set_new(again, "refs_changed", json_true());
+            free(txt);
+            txt = json_dumps(again, JSON_COMPACT | JSON_SORT_KEYS | JSON_ENCODE_ANY);
+        }
+        json_decref(again);
+    }
+    json_decref(args);
+    return txt ? txt : strdup("{\"error\":\"undumpable\"}");
+}
+
+/* --threads N: all lines are read first, line i is executed by thread i mod N (each thread works
+ * on objects of its own: every line parses its own arguments), results are printed in input order */
+#include <pthread.h>
+static char **t_lines, **t_out;
+static size_t t_n, t_threads;
+
+static void *
+worker(void *p)
+{
+    size_t me = (size_t) p;
+    for (size_t i = me; i < t_n; i += t_threads)
+        t_out[i] = hx_process(t_lines[i]);
+    return NULL;
+}
+
+static int
+threaded(size_t nthreads)
+{
+    char *line = NULL;
+    size_t cap = 0, room = 0;
+    ssize_t n;
+    pthread_t th[64];
+
+    while ((n = getline(&line, &cap, stdin)) > 0) {
+        while (n > 0 && (line[n - 1] == '\n' || line[n - 1] == '\r'))
+            line[--n] = 0;
+        if (n == 0)
+            continue;
+        if (t_n == room) {
+            room = room ? room * 2 : 1024;
+            t_lines = realloc(t_lines, room * sizeof(*t_lines));
+        }
+        t_lines[t_n++] = strdup(line);
+    }
+    free(line);
+    t_out = calloc(t_n + 1, sizeof(*t_out));
+    t_threads = nthreads > 64 ? 64 : nthreads;
+    for (size_t t = 0; t < t_threads; t++)
+        pthread_create(&th[t], NULL, worker, (void *) t);
+    for (size_t t = 0; t < t_threads; t++)
+        pthread_join(th[t], NULL);
+    for (size_t i = 0; i < t_n; i++) {
+        puts(t_out[i] ? t_out[i] : "{\"error\":\"no-result\"}");
+        free(t_out[i]);
+        free(t_lines[i]);
+    }
+    free(t_out);
+    free(t_lines);
+    return 0;
+}
+
 int
 main(int argc, char *argv[])
 {
@@ -127,65 +243,20 @@ main(int argc, char *argv[])
     size_t cap = 0;
     ssize_t n;
 
-    while ((n = getline(&line, &cap, stdin)) > 0) {
-        char *sp;
-        json_t *args, *res;
-        json_error_t err;
-        op_fn fn;
+    if (argc == 3 && strcmp(argv[1], "--threads") == 0)
+        return threaded((size_t) atoi(argv[2]));
 
+    while ((n = getline(&line, &cap, stdin)) > 0) {
+        char *txt;
         while (n > 0 && (line[n - 1] == '\n' || line[n - 1] == '\r'))
             line[--n] = 0;
         if (n == 0)
             continue;
-        sp = strchr(line, ' ');
-        if (sp)
-            *sp++ = 0;
-        fn = find_op(line);
-        if (!fn) {
-            printf("{\"error\":\"unknown-op\"}\n");
-            fflush(stdout);
-            continue;
-        }
-        args = json_loads(sp ? sp : "{}", JSON_ALLOW_NUL | JSON_DECODE_ANY, &err);
-        if (!args) {
-            printf("{\"error\":\"bad-args\"}\n");
-            fflush(stdout);
-            continue;
-        }
-        {
-            /* C17 / C09: no operation may change the JSON values it is handed (mutating operations
-             * work on copies made by the op itself), and once the result has been released the
-             * reference counts of all argument nodes must be what they were */
-            json_t *before = json_deep_copy(args);
-            size_t rc_before = hx_refsum(args);
-            char *txt;
-            bool mutated, refs;
-            res = fn(args);
-            if (!res)
-                res = json_pack("{s:s}", "error", "op-returned-null");
-            txt = json_dumps(res, JSON_COMPACT | JSON_SORT_KEYS | JSON_ENCODE_ANY);
-            json_decref(res);
-            mutated = !json_equal(before, args);
-            refs = hx_refsum(args) != rc_before;
-            json_decref(before);
-            if ((mutated || refs) && txt) {
-                json_t *again = json_loads(txt, JSON_ALLOW_NUL | JSON_DECODE_ANY, NULL);
-                if (json_is_object(again)) {
-                    if (mutated)
-                        json_object_set_new(again, "args_mutated", json_true());
-                    if (refs)
-                        json_object_set_new(again, "refs_changed", json_true());
-                    free(txt);
-                    txt = json_dumps(again, JSON_COMPACT | JSON_SORT_KEYS | JSON_ENCODE_ANY);
-                }
-                json_decref(again);
-            }
-            fputs(txt ? txt : "{\"error\":\"undumpable\"}", stdout);
-            fputc('\n', stdout);
-            fflush(stdout);
-            free(txt);
-        }
-        json_decref(args);
+        txt = hx_process(line);
+        fputs(txt, stdout);
+        fputc('\n', stdout);
+        fflush(stdout);
+        free(txt);
     }
     free(line);
     return 0;
